@@ -260,7 +260,29 @@ func ruleC18(c *Ctx) {
 	if vsp != nil {
 		c.RequireGuard("guard", c.ScopeFunc(vsp), "span rule over the checkpoint tree", callsKey("(*protocol/casper.treeNode).findOnlyOne"), readsField("protocol/casper.Casper", "tree"))
 		// the predicate closure: every sup link of the checkpoint is examined (no early exit from the loop except `return true`)
-		for _, an := range vsp.AnonFuncs {
+		// the predicate handed to findOnlyOne: a closure, or a method value (v.pred) whose bound-method
+		// wrapper is followed to the method itself
+		var preds []*ssa.Function
+		for _, s := range callsTo(vsp, false, "(*protocol/casper.treeNode).findOnlyOne") {
+			for _, a := range s.Common().Args {
+				mc, ok := a.(*ssa.MakeClosure)
+				if !ok {
+					continue
+				}
+				fn, _ := mc.Fn.(*ssa.Function)
+				if fn != nil && fn.Synthetic != "" {
+					for _, ci := range allCalls(fn, false) {
+						if g := staticCallee(ci); g != nil && inModule(g) {
+							fn = g
+						}
+					}
+				}
+				if fn != nil {
+					preds = append(preds, fn)
+				}
+			}
+		}
+		for _, an := range preds {
 			rets := 0
 			badEarly := false
 			for r := range earlyExits(an) {
